@@ -4,7 +4,7 @@ LIBS_SCALAR = ["varintTagged.c", "varintExternal.c", "varintExternalBigEndian.c"
                "varintChainedSimple.c", "varintElias.c"]
 LIBS_ARRAY = ["varintDelta.c", "varintFOR.c", "varintPFOR.c", "varintGroup.c", "varintDict.c", "varintRLE.c",
               "varintElias.c", "varintBP128.c", "varintAdaptive.c", "varintBitmap.c", "varintFloat.c"]
-LIBS_ALL = LIBS_SCALAR + LIBS_ARRAY
+LIBS_ALL = LIBS_SCALAR + [x for x in LIBS_ARRAY if x not in LIBS_SCALAR]
 
 ASAN_ENV = {"ASAN_OPTIONS": "handle_segv=0:handle_sigbus=0:handle_abort=0:handle_sigfpe=0:allow_user_segv_handler=1:"
                             "detect_leaks=0:halt_on_error=0:detect_stack_use_after_return=0:print_summary=0:"
@@ -40,6 +40,10 @@ def scalar(prop, rule, expl, dl_quick=100, dl_thorough=1500, configs=None):
         configs=configs or {"quick": ["pinned", "debug", "asan"], "thorough": ["pinned", "debug", "asan", "native"]},
         shards={"pinned": 16, "debug": 8, "asan": 8, "native": 8},
         deadline={"quick": dl_quick, "thorough": dl_thorough},
+        # exhaustive prefix [0,2^P): P=32 in the optimised builds, 28 in the slow (unoptimised / sanitised) ones
+        tier_env={"quick": {"pinned": {"VERIF_PREFIX_BITS": "24"}, "debug": {"VERIF_PREFIX_BITS": "22"},
+                            "asan": {"VERIF_PREFIX_BITS": "22"}},
+                  "thorough": {"debug": {"VERIF_PREFIX_BITS": "28"}, "asan": {"VERIF_PREFIX_BITS": "28"}}},
         rule=rule, explanation=expl,
         assumptions=["reference encoders in /verif/ref are trusted (written from the documented formats)",
                      "2^64 values are covered exhaustively only below 2^P and over the stated alphabets beyond"],
@@ -68,7 +72,7 @@ scalar("C12", "all triples (stored value, width, amount) with stored value and t
 HOOK_COMMITS = []
 
 ENGINES = [
-    {"name": "E-enum", "path": "engine/vh.h + checks/*.c", "serves_properties": ["C01", "C04", "C05", "C12"],
+    {"name": "E-enum", "path": "engine/vh.h + checks/*.c", "serves_properties": ["C01", "C02", "C03", "C04", "C05", "C06", "C12", "C13", "C16"],
      "kind_free_text": "stateless exhaustive enumeration of explicit finite input alphabets on the real code, guard-page "
                        "sandbox, reference-encoder / reference-model oracles"},
 ]
@@ -86,3 +90,35 @@ def not_applicable():
 
 
 NOT_APPLICABLE = not_applicable()
+
+ARRAY_RULE = ("every array of the corpus A (S1: all arrays of length 1-3 over a 20-value boundary alphabet, length 4-6 "
+              "over {0,1,255,2^64-1}, length <=8 over {1,2}; S2: complete product of length class x shape x step x base "
+              "x outlier pattern x magnitude, thinned for longer lengths; S3: adversarial families) through every codec "
+              "entry point on the real code; a class is a distinct (codec, header-length class, width class, exception / "
+              "block structure) combination reached")
+
+
+def arrays(prop, expl, rule_extra="", dl_quick=150, dl_thorough=1800, configs=None):
+    CHECKS[prop] = dict(
+        name="arrays", harness=["checks/arrays.c", "engine/vmalloc.c"], libs=LIBS_ALL, wrap_malloc=True,
+        configs=configs or {"quick": ["pinned", "native"], "thorough": ["pinned", "native", "asan"]},
+        shards={"pinned": 16, "native": 16, "asan": 16, "debug": 16},
+        deadline={"quick": dl_quick, "thorough": dl_thorough},
+        rule=ARRAY_RULE + rule_extra, explanation=expl,
+        assumptions=["oracle is the input array itself / ground truth recomputed by the harness",
+                     "arrays longer than the corpus lengths and arbitrary (unstructured) long arrays are not enumerated"],
+    )
+
+
+arrays("C02", "E-enum: encode, copy the reported bytes into an exact-size guard-page buffer, decode with the original count, "
+              "compare with the input; every random-access / block reader compared with the full decode at every index")
+arrays("C03", "E-enum: the encoder's destination is a guard-page buffer of exactly the advertised size, so a write one byte "
+              "past it faults; returned length <= advertised (== where documented exact)")
+arrays("C13", configs={"quick": ["pinned"], "thorough": ["pinned", "native", "asan"]}, expl="E-enum over (valid encoding, capacity c in 0..n): the output buffer holds exactly c elements before a "
+              "PROT_NONE page; library-internal blocks carry redzones; result must be 0 or a correct prefix",
+       rule_extra="; x every capacity 0..n (n <= 385 quick, 4097 thorough)")
+arrays("C16", "E-enum: every metadata field and header accessor named by the property compared with ground truth "
+              "recomputed by the harness from the input and from the bytes written")
+arrays("C06", "E-enum: adaptive auto-selection and every forced encoding whose domain contains the array, decoded from an "
+              "exact-size copy; decision-tree path signatures counted; synthetic sweep of the selection function",
+       "; class = (selected encoding, decision-tree path signature)")
